@@ -23,9 +23,10 @@ import (
 
 	"github.com/vulcand/oxy/v2/connlimit"
 	"github.com/vulcand/oxy/v2/utils"
+	"github.com/vulcand/oxy/v2/verifharness/hlib"
 )
 
-func init() { components["connlimit"] = func() Component { return &connlimitComp{} } }
+func main() { hlib.Main("connlimit", &connlimitComp{}) }
 
 type connlimitComp struct{}
 
@@ -120,9 +121,9 @@ func (r *clRunner) finish(rq *clReq, panics bool) int {
 	}
 }
 
-func (c *connlimitComp) Gen(rng *rand.Rand, idx int, tier string, targeted bool) History {
-	var h History
-	max := pick(rng, 0, 1, 1, 2, 2, 3, 4, 5)
+func (c *connlimitComp) Gen(rng *rand.Rand, idx int, tier string, targeted bool) hlib.History {
+	var h hlib.History
+	max := hlib.Pick(rng, 0, 1, 1, 2, 2, 3, 4, 5)
 	if rng.Intn(20) == 0 {
 		max = -1
 	}
@@ -157,13 +158,13 @@ func (c *connlimitComp) Gen(rng *rand.Rand, idx int, tier string, targeted bool)
 			f := inflight[k]
 			inflight = append(inflight[:k], inflight[k+1:]...)
 			cur[f.tok] -= f.amount
-			h.Ops = append(h.Ops, []int64{1, f.tok, f.amount, b2i(rng.Intn(3) == 0)})
+			h.Ops = append(h.Ops, []int64{1, f.tok, f.amount, hlib.B2i(rng.Intn(3) == 0)})
 		}
 	}
 	// drain, then probe the full capacity of every source again
 	if rng.Intn(2) == 0 {
 		for _, f := range inflight {
-			h.Ops = append(h.Ops, []int64{1, f.tok, f.amount, b2i(rng.Intn(3) == 0)})
+			h.Ops = append(h.Ops, []int64{1, f.tok, f.amount, hlib.B2i(rng.Intn(3) == 0)})
 		}
 		for s := 0; s < nsrc; s++ {
 			for k := int64(0); k < max+1 && k < 7; k++ {
@@ -174,7 +175,7 @@ func (c *connlimitComp) Gen(rng *rand.Rand, idx int, tier string, targeted bool)
 	return h
 }
 
-func (c *connlimitComp) Run(h *History) ([]Mon, bool) {
+func (c *connlimitComp) Run(h *hlib.History) ([]hlib.Mon, bool) {
 	if len(h.Cfg) != 1 {
 		return nil, false
 	}
@@ -183,7 +184,7 @@ func (c *connlimitComp) Run(h *History) ([]Mon, bool) {
 	if err != nil {
 		return nil, false
 	}
-	var mons []Mon
+	var mons []hlib.Mon
 	var inflight []*clReq
 	cur := map[int64]int64{}  // ground truth: amount inside the handler per source
 	nreq := map[int64]int64{} // ground truth: requests inside the handler per source
@@ -204,23 +205,23 @@ func (c *connlimitComp) Run(h *History) ([]Mon, bool) {
 			decisions[tok] = append(decisions[tok], status)
 			full := cur[tok] >= max
 			if status == 429 && !full {
-				mons = append(mons, Mon{Prop: "C04", Step: step, Msg: fmt.Sprintf("source %d rejected with only %d of %d in flight", tok, cur[tok], max)})
+				mons = append(mons, hlib.Mon{Prop: "C04", Step: step, Msg: fmt.Sprintf("source %d rejected with only %d of %d in flight", tok, cur[tok], max)})
 			}
 			if status == 200 && full {
-				mons = append(mons, Mon{Prop: "C04", Step: step, Msg: fmt.Sprintf("source %d admitted with %d of %d already in flight", tok, cur[tok], max)})
+				mons = append(mons, hlib.Mon{Prop: "C04", Step: step, Msg: fmt.Sprintf("source %d admitted with %d of %d already in flight", tok, cur[tok], max)})
 			}
 			if status != 200 && status != 429 {
-				mons = append(mons, Mon{Prop: "C04", Step: step, Msg: fmt.Sprintf("arrival of source %d answered %d", tok, status)})
+				mons = append(mons, hlib.Mon{Prop: "C04", Step: step, Msg: fmt.Sprintf("arrival of source %d answered %d", tok, status)})
 			}
 			if rq != nil {
 				inflight = append(inflight, rq)
 				cur[tok] += amount
 				nreq[tok]++
 				if unit && nreq[tok] > max {
-					mons = append(mons, Mon{Prop: "C04", Step: step, Msg: fmt.Sprintf("source %d has %d requests inside the handler, max %d", tok, nreq[tok], max)})
+					mons = append(mons, hlib.Mon{Prop: "C04", Step: step, Msg: fmt.Sprintf("source %d has %d requests inside the handler, max %d", tok, nreq[tok], max)})
 				}
 				if seen != cur[tok] {
-					mons = append(mons, Mon{Prop: "C04", Step: step, Msg: fmt.Sprintf("handler of source %d saw concurrency %d, harness counted %d", tok, seen, cur[tok])})
+					mons = append(mons, hlib.Mon{Prop: "C04", Step: step, Msg: fmt.Sprintf("handler of source %d saw concurrency %d, harness counted %d", tok, seen, cur[tok])})
 				}
 			}
 		case len(op) == 4 && op[0] == 1:
@@ -245,14 +246,14 @@ func (c *connlimitComp) Run(h *History) ([]Mon, bool) {
 			cur[tok] -= amount
 			nreq[tok]--
 			if panics != (code == -1) || code == -2 {
-				mons = append(mons, Mon{Prop: "C04", Step: step, Msg: fmt.Sprintf("finish(panic=%v) of source %d ended with %d", panics, tok, code)})
+				mons = append(mons, hlib.Mon{Prop: "C04", Step: step, Msg: fmt.Sprintf("finish(panic=%v) of source %d ended with %d", panics, tok, code)})
 			}
 			h.Obs = append(h.Obs, []int64{})
 		case len(op) == 1 && op[0] == 2:
 			status, _, rq := r.arrive(-1, 1)
 			if rq != nil {
 				r.finish(rq, false)
-				mons = append(mons, Mon{Prop: "C04", Step: step, Msg: "request without a source reached the handler"})
+				mons = append(mons, hlib.Mon{Prop: "C04", Step: step, Msg: "request without a source reached the handler"})
 			}
 			h.Obs = append(h.Obs, []int64{status})
 		default:
@@ -274,7 +275,7 @@ func (c *connlimitComp) Run(h *History) ([]Mon, bool) {
 		got := decisions[tok]
 		for i := range got {
 			if i >= len(solo) || solo[i] != got[i] {
-				mons = append(mons, Mon{Prop: "C14", Step: -1, Msg: fmt.Sprintf("connlimit: decision %d of source %d is %d in the interleaving but %v alone", i, tok, got[i], solo)})
+				mons = append(mons, hlib.Mon{Prop: "C14", Step: -1, Msg: fmt.Sprintf("connlimit: decision %d of source %d is %d in the interleaving but %v alone", i, tok, got[i], solo)})
 				break
 			}
 		}
@@ -283,7 +284,7 @@ func (c *connlimitComp) Run(h *History) ([]Mon, bool) {
 }
 
 // solo replays only the ops of one source on a fresh limiter.
-func (c *connlimitComp) solo(h *History, tok int64) ([]int64, bool) {
+func (c *connlimitComp) solo(h *hlib.History, tok int64) ([]int64, bool) {
 	r, err := newCLRunner(h.Cfg[0])
 	if err != nil {
 		return nil, false
@@ -316,7 +317,7 @@ func (c *connlimitComp) solo(h *History, tok int64) ([]int64, bool) {
 	return out, true
 }
 
-func (c *connlimitComp) Describe(h *History) interface{} {
+func (c *connlimitComp) Describe(h *hlib.History) interface{} {
 	var ops []string
 	for i, op := range h.Ops {
 		var s string
@@ -336,7 +337,7 @@ func (c *connlimitComp) Describe(h *History) interface{} {
 	return map[string]interface{}{"max": h.Cfg[0], "ops": ops}
 }
 
-func (c *connlimitComp) Nontrivial(h *History) string {
+func (c *connlimitComp) Nontrivial(h *hlib.History) string {
 	rej, adm, pan := 0, 0, 0
 	for i, op := range h.Ops {
 		if op[0] == 0 && i < len(h.Obs) {
@@ -350,9 +351,9 @@ func (c *connlimitComp) Nontrivial(h *History) string {
 			pan++
 		}
 	}
-	count("arrivals_admitted", int64(adm))
-	count("arrivals_rejected", int64(rej))
-	count("finish_by_panic", int64(pan))
+	hlib.Count("arrivals_admitted", int64(adm))
+	hlib.Count("arrivals_rejected", int64(rej))
+	hlib.Count("finish_by_panic", int64(pan))
 	if rej > 0 && adm > 0 {
 		if pan > 0 {
 			return "admit+reject+panic"
